@@ -160,7 +160,7 @@ let () = run_lines (fun f ->
     let answered = ref false and verified = ref false and reached = ref None in
     let answer zid (q : Reader.question) _ _ = answered := true; reached := Some (int_of_nat zid, q); Server.empty_body in
     let verify _ _ _ _ _ _ = verified := true; Server.VOk in
-    let cfg = { Server.c_transport = (if tr = "t" then Server.Tcp else Server.Udp);
+    let cfg = { Server.c_transport = (if tr = "t" || tr = "T" then Server.Tcp else Server.Udp);
                 Server.c_edns_size = n_of_int (int_of_string edns);
                 Server.c_buflen = nat_of_int 65535;
                 Server.c_catalog = tree_catalog (parse_catalog cat);
@@ -176,7 +176,7 @@ let () = run_lines (fun f ->
         | None -> "panic"
         | Some z ->
           let qname = Query.labels_of q.Reader.q_name in
-          let tcp = (tr = "t") in
+          let tcp = (tr = "t" || tr = "T") in
           let est = estimate z qname q.Reader.q_type in
           let buf = buffer (if est + 96 <= 4096 then 4096 else 65535) in
           (match QueryW.respond_w Query.neg_ttl buf tcp w.Server.w_id w.Server.w_rd qname q.Reader.q_type q.Reader.q_class
